@@ -38,7 +38,7 @@ def emit_node(n):
     if k in ("inline", "nested", "nested2", "nested3", "tryexcept"):
         parts.append(n["g"])
     parts += n.get("args", [])
-    for key in ("valid", "op", "count", "period", "value", "delay", "p", "q", "all", "eid", "ty", "at"):
+    for key in ("valid", "op", "count", "period", "value", "delay", "p", "q", "all", "eid", "ty", "at", "k"):
         if key in n and n[key] is not None:
             parts.append("%s=%s" % (key, n[key]))
     parts.append("id=%d" % n.get("id", 0))
@@ -407,10 +407,10 @@ class Model:
                 break
         return cycles, self.events
 
-    def run_user(self, n, t, views, body):
+    def run_user(self, n, t, views, body, flags=True):
         """user code of node n runs at t: log it, apply fault plan, then the body."""
         nid = n.get("id", 0)
-        self.events.append({"k": "ev", "id": nid, "t": t, "in": self.ins(views)})
+        self.events.append({"k": "ev", "id": nid, "t": t, "in": self.ins(views) if flags else [[1, None, val] for (_, _, val) in views]})
         if self.fault_hit(nid, "eval"):
             grp = n.get("try_group")
             if n["name"] in self.capture:
@@ -506,6 +506,13 @@ class Model:
                     def body(n=n, v=v):
                         self.write(n, t, norm((v[2] if v[0] else 0) + (1000 if t == n["at"] else 0)))
                     self.run_user(n, t, [v], body)
+            elif k == "lift2":
+                # a lifted scalar function: all inputs active and required; it sees values only (no flags in its log)
+                views = [self.view(a, t) for a in n["args"]]
+                if any(v[1] for v in views) and all(v[0] for v in views):
+                    def body(n=n, views=views):
+                        self.write(n, t, norm(views[0][2] * 3 + views[1][2] * 5 + 11))
+                    self.run_user(n, t, views, body, flags=False)
             elif k == "conv":
                 v = self.view(n["args"][0], t)
                 if not n["args"][0].startswith("~") and v[1] and v[0]:
